@@ -25,7 +25,9 @@ K8S_TEST = "c19_kubernetes_test.go"
 
 RULE = ("input = one generated content fed to one entry point (jwt signer / http_message_signatures / TLS key store "
         "ChangeListener.OnChanged captured from the real constructors, trust-store loader, config.ParseRules + "
-        "rule.SetProcessor.OnCreated and OnUpdated of the assembled service, kubernetes informer callbacks, remote "
+        "rule.SetProcessor.OnCreated and OnUpdated of the assembled service, the change handlers of the file_system and "
+        "http_endpoint providers (ruleSetsChanged, watchChanges) in front of a recording processor, kubernetes informer "
+        "callbacks, remote "
         "JWKS / introspection / authorization / contextualizer responses and raw bytes over TCP through the assembled "
         "decision service); families: truncation of valid fixtures at every byte offset, single-node type confusion, "
         "special files (empty, whitespace, zero PEM blocks, certificates only, unsupported blocks and keys), huge "
@@ -76,7 +78,8 @@ def run_k8s(work, tag):
     src = os.path.join(verif.HARNESS, "overlay", K8S_TEST)
     if not os.path.exists(src):
         raise Infra("overlay source missing: " + src)
-    json.dump({"Replace": {os.path.join(verif.REPO, K8S_PKG, K8S_TEST): src}}, open(ov, "w"))
+    with open(ov, "w") as f:
+        json.dump({"Replace": {os.path.join(verif.REPO, K8S_PKG, K8S_TEST): src}}, f)
     cmd = ["go", "test", "-tags", "verif", "-vet=off", "-count=1", "-overlay", ov, "-run", "^TestVerifC19$",
            "-timeout", "300s", "./" + K8S_PKG]
     e = verif.goenv()
@@ -84,6 +87,40 @@ def run_k8s(work, tag):
     p = subprocess.run(cmd, cwd=verif.REPO, env=e, capture_output=True, text=True, timeout=900)
     if p.returncode != 0 or not os.path.exists(tf):
         raise Infra("C19 kubernetes driver failed (rc=%d):\n%s" % (p.returncode, (p.stdout + p.stderr)[-4000:]))
+    return read_ndjson(tf)
+
+
+PROVIDERS = {
+    "fs": ("internal/rules/provider/filesystem", "c19_filesystem_test.go"),
+    "http": ("internal/rules/provider/httpendpoint", "c19_httpendpoint_test.go"),
+}
+
+
+def run_provider(work, which, tier, tag, only=None):
+    """Change handlers of the file_system / http_endpoint providers (overlay tests): truncations at every
+    offset, well-formed documents that are no rule sets and type confusions reach the provider's own handler."""
+    pkg, test = PROVIDERS[which]
+    tf = work.path("trace_prov_%s_%s.ndjson" % (which, tag))
+    ov = work.path("overlay_c19_%s_%s.json" % (which, tag))
+    rep = {os.path.join(verif.REPO, "internal/x/verifc19/common.go"): os.path.join(verif.HARNESS, "overlay", "c19_common.go"),
+           os.path.join(verif.REPO, pkg, test): os.path.join(verif.HARNESS, "overlay", test)}
+    for src in rep.values():
+        if not os.path.exists(src):
+            raise Infra("overlay source missing: " + src)
+    with open(ov, "w") as f:
+        json.dump({"Replace": rep}, f)
+    cmd = ["go", "test", "-tags", "verif", "-vet=off", "-count=1", "-overlay", ov, "-run", "^TestVerifC19Provider$",
+           "-timeout", "600s", "./" + pkg]
+    e = verif.goenv()
+    e.update({"VERIF_WORK": verif.WORKROOT, "VERIF_C19_TRACE": tf, "VERIF_C19_TIER": tier})
+    if only is not None:
+        mine = [i.replace("ruleset-%s/" % which, "provider/", 1) for i in only if i.startswith("ruleset-%s/" % which)]
+        if not mine:
+            return []
+        e["VERIF_C19_ONLY"] = "\n".join(mine)
+    p = subprocess.run(cmd, cwd=verif.REPO, env=e, capture_output=True, text=True, timeout=1200)
+    if p.returncode != 0 or not os.path.exists(tf):
+        raise Infra("C19 %s provider driver failed (rc=%d):\n%s" % (which, p.returncode, (p.stdout + p.stderr)[-4000:]))
     return read_ndjson(tf)
 
 
@@ -102,10 +139,12 @@ def run_drv(work, binary, tier, seed, tag, only=None):
 
 
 def execute(work, binary, tier, seed, tag, only=None):
-    with ThreadPoolExecutor(max_workers=2) as ex:
+    with ThreadPoolExecutor(max_workers=4) as ex:
         k = ex.submit(run_k8s, work, tag)
+        pf = ex.submit(run_provider, work, "fs", tier, tag, only)
+        ph = ex.submit(run_provider, work, "http", tier, tag, only)
         d = run_drv(work, binary, tier, seed, tag, only)
-        lines = d + k.result()
+        lines = d + k.result() + pf.result() + ph.result()
     if only is not None:
         lines = [x for x in lines if x["id"] in only]
     return lines
